@@ -419,6 +419,97 @@ def r63(facts, res):
     res.floor(R, 'InsertTerm construction sites', n, 1)
 
 
+def _origin_names(b, l, depth=0, seen=None):
+    """names of the calls a local's value is computed from (through copies, borrows, fields, casts, operators); the
+    arguments of comparison/conversion calls are followed, those of any other call are not (the call is the origin)"""
+    seen = set() if seen is None else seen
+    if l in seen or depth > 24:
+        return set()
+    seen.add(l)
+    out = set()
+    for bb, kind, d in b.defs().get(l, ()):
+        if kind == 'call':
+            nm = cname(d) or '?'
+            out.add(nm)
+            if nm in ('eq', 'ne', 'lt', 'le', 'gt', 'ge', 'cmp', 'partial_cmp', 'deref', 'clone', 'from', 'into', 'borrow', 'not', 'as_ref', 'unwrap', 'is_eq', 'is_ne', 'is_gt', 'is_lt', 'is_ge', 'is_le'):
+                for a in d['args']:
+                    if op_local(a) is not None:
+                        out |= _origin_names(b, op_local(a), depth + 1, seen)
+        else:
+            pls = [d[k] for k in ('ref', 'discr', 'len') if isinstance(d.get(k), dict) and 'l' in d[k]]
+            pls += [op_place(o) for o in rv_operands(d) if op_place(o) is not None]
+            if 'cast' in d and isinstance(d['cast'], dict):
+                o = d['cast'].get('op') or d['cast']
+                if isinstance(o, dict) and op_place(o) is not None:
+                    pls.append(op_place(o))
+            if not pls and not any(k in d for k in ('const',)) and 'agg' not in d:
+                out.add('?')
+            for pl in pls:
+                out |= _origin_names(b, pl['l'], depth + 1, seen)
+    if l <= b.arg_count and l >= 1:
+        out.add('param')
+    return out
+
+
+DROPPING_ADAPTORS = ('filter', 'filter_map', 'skip', 'skip_while', 'take', 'take_while', 'step_by', 'map_while', 'flat_map', 'nth', 'find', 'find_map', 'position', 'any', 'all')
+
+
+def r612(facts, res):
+    """CPCT+'s insert rule proposes EVERY token the state has an action for except end-of-input, and keeps each proposal the
+    side-effect-free parse can shift.  Decided on the shape of CPCTPlus::insert: the branches that decide whether the
+    InsertTerm neighbour is built (classical control dependence, transitively, inside the candidate loop) may test only
+    (a) that the candidate iterator has another element, (b) the candidate against eof_token_idx(), (c) the outcome of the
+    trial parse (lr_cactus / lr_upto).  A test of anything else - the look-ahead token, the cost, a counter - drops
+    candidates from the search, so a minimum-cost repair that needs them is not reported."""
+    R = 'R6.12'
+    n = 0
+    for b in facts.lib_bodies(['lrpar']):
+        if not b.path.startswith(CP) or b.from_expansion:
+            continue
+        sites = [bb for bb, i, st in b.stmts() if st['k'] == 'assign' and 'agg' in st['rv'] and isinstance(st['rv']['agg'], dict)
+                 and st['rv']['agg'].get('vname') == 'InsertTerm' and st['rv']['agg'].get('adt', '').endswith('cpctplus::Repair')]
+        for site in sorted(set(sites)):
+            n += 1
+            key = 'insert-candidates:%s' % strip_generics(b.path).split('::')[-1]
+            deps, todo = set(), [site]
+            while todo:
+                x = todo.pop()
+                for s in b.control_deps_pd(x):
+                    if s not in deps:
+                        deps.add(s)
+                        todo.append(s)
+            bad, kinds = [], {'more-candidates': 0, 'eof': 0, 'trial-parse': 0}
+            for s in sorted(deps):
+                t = b.term(s)
+                l = op_local(t['on'])
+                names = _origin_names(b, l) if l is not None else {'?'}
+                if 'eof_token_idx' in names and not (names - {'eof_token_idx', 'eq', 'ne', 'param', 'next', 'deref', 'clone', 'from', 'into', 'borrow', 'not', 'as_ref'}):
+                    kinds['eof'] += 1
+                elif names & {'lr_cactus', 'lr_upto'}:
+                    kinds['trial-parse'] += 1
+                elif names and names <= {'next', 'param'} and 'next' in names:
+                    kinds['more-candidates'] += 1
+                else:
+                    bad.append('line %s: the neighbour is built or not depending on a test of %s' % (t.get('line'), ', '.join(sorted(names - {'param', 'eq', 'ne', 'not'})) or 'a parameter'))
+            for bb, t in b.calls():
+                nm = cname(t)
+                if nm in DROPPING_ADAPTORS and 'iter' in (callee_of(t).get('path') or ''):
+                    if nm == 'filter' and eof_excluding_filters(facts, b) and len(eof_excluding_filters(facts, b)) >= len(b.calls_named('filter')):
+                        kinds['eof'] += 1
+                        continue
+                    bad.append('line %s: the candidates pass through Iterator::%s' % (t.get('line'), nm))
+            if not kinds['eof'] and not bad:
+                # R6.3's business, but say it here too: without it the count below is meaningless
+                bad.append('no test against eof_token_idx() decides the neighbour')
+            if bad:
+                res.bad(R, key, loc_of(b, site), '; '.join(bad[:3]) + ': the insert rule must propose every token the state has an action for, except end-of-input, '
+                        'and keep each proposal the trial parse shifts', {'function': b.path})
+            else:
+                res.ok(R, key, loc_of(b, site), 'whether the InsertTerm neighbour is built depends only on: another candidate (%d), candidate != end-of-input (%d), the trial parse (%d)'
+                       % (kinds['more-candidates'], kinds['eof'], kinds['trial-parse']))
+    res.floor(R, 'InsertTerm construction sites', n, 1)
+
+
 def r64(facts, res):
     R = 'R6.4'
     rec = [x for x in facts.lib_bodies(['lrpar']) if x.name == 'recover' and 'CPCTPlus' in (x.impl_of or '')]
@@ -940,6 +1031,7 @@ def run(facts, res):
     r62(facts, res)
     r62b(facts, res)
     r63(facts, res)
+    r612(facts, res)
     r64(facts, res)
     r65(facts, res)
     r66(facts, res)
